@@ -54,6 +54,8 @@ func main() {
 		os.Exit(cmdTrace(os.Args[2:]))
 	case "par":
 		os.Exit(cmdPar(os.Args[2:]))
+	case "minimise":
+		os.Exit(cmdMinimise(os.Args[2:]))
 	default:
 		fmt.Fprintln(os.Stderr, "unknown subcommand", os.Args[1])
 		os.Exit(2)
@@ -234,6 +236,27 @@ func cmdReplay(args []string) int {
 	}
 	if rp.Mode == "regen" {
 		return replayRegen(&rp, args[0])
+	}
+	if os.Getenv("ARKSIM_REPLAY_CHILD") != "1" {
+		// The history runs in a child process: on a defective ark it can end in a Go fatal error
+		// (corrupted component memory), which is a violation to report, not a harness failure.
+		cmd := exec.Command(os.Args[0], "replay", args[0])
+		cmd.Env = append(os.Environ(), "ARKSIM_REPLAY_CHILD=1")
+		out, err := cmd.CombinedOutput()
+		if err != nil && !strings.Contains(string(out), "VIOLATION property=") && strings.Contains(string(out), "fatal error:") {
+			i := strings.Index(string(out), "fatal error:")
+			fmt.Printf("VIOLATION property=%s replay=%s\n", rp.Property, args[0])
+			fmt.Printf("  oracle=no_crash sig=%s/no_crash/fatal\n  executing the history crashed the process: %s\n", rp.Property, clipS(strings.SplitN(string(out)[i:], "\n", 2)[0], 200))
+			return 1
+		}
+		os.Stdout.Write(out)
+		if ee, ok := err.(*exec.ExitError); ok {
+			return ee.ExitCode()
+		}
+		if err != nil {
+			return 2
+		}
+		return 0
 	}
 	viol := execMode(rp.Property, rp.Tier, rp.Mode, rp.Cfg, rp.Ops)
 	want := ""
@@ -537,17 +560,24 @@ func conclude(prop, tier string, seed uint64, total *WorkerOut, states map[uint6
 		} else if rp.Mode == "regen" {
 			// a crash is replayed by regenerating the run from its seed
 		} else {
+			// The history is minimised in a child process: executing it on a defective ark can
+			// end in a Go fatal error (corrupted component memory), which must not take the
+			// driver down. If the child fails, the history is reported as it was found.
 			before := len(rp.Ops)
-			rp.Ops = sim.Minimise(rp.Ops, sig, 400, func(ops []sim.Op) []sim.Violation {
-				return execMode(prop, tier, rp.Mode, rp.Cfg, ops)
-			})
-			// refresh the violation record from the minimised history
-			for _, v := range execMode(prop, tier, rp.Mode, rp.Cfg, rp.Ops) {
-				if v.Sig == sig {
-					vv := v
-					rp.Viol = &vv
-					break
+			tmpf := filepath.Join(verifDir, "tmp", fmt.Sprintf("min-%d-%s.json", os.Getpid(), sanitize(sig)))
+			if b, err := json.Marshal(rp); err == nil && os.WriteFile(tmpf, b, 0o644) == nil {
+				ctx, cancel := context.WithTimeout(context.Background(), 180*time.Second)
+				cmd := exec.CommandContext(ctx, os.Args[0], "minimise", tmpf)
+				if _, err := cmd.CombinedOutput(); err == nil {
+					var m sim.Replay
+					if mb, err := os.ReadFile(tmpf); err == nil && json.Unmarshal(mb, &m) == nil && m.Viol != nil && len(m.Ops) > 0 {
+						rp.Ops, rp.Viol = m.Ops, m.Viol
+					}
+				} else {
+					lines = append(lines, fmt.Sprintf("(minimisation of %s ended abnormally: %v; the history is reported unminimised)", sig, err))
 				}
+				cancel()
+				os.Remove(tmpf)
 			}
 			fmt.Printf("minimised %s: %d -> %d ops\n", sig, before, len(rp.Ops))
 		}
@@ -762,4 +792,36 @@ func engineLabel(prop, engine string) string {
 		return engine + " (world simulator, workers 0-2 of 4) + G (operations inside the mark phase of a collection, worker 3 of 4; evaluations of G: oracle_evaluations[gc.window])"
 	}
 	return engine
+}
+
+// cmdMinimise minimises the history of a replay file in place (see conclude).
+func cmdMinimise(args []string) int {
+	if len(args) < 1 {
+		return 2
+	}
+	b, err := os.ReadFile(args[0])
+	if err != nil {
+		return 2
+	}
+	var rp sim.Replay
+	if err := json.Unmarshal(b, &rp); err != nil || rp.Viol == nil {
+		return 2
+	}
+	sig := rp.Viol.Sig
+	rp.Ops = sim.Minimise(rp.Ops, sig, 400, func(ops []sim.Op) []sim.Violation {
+		return execMode(rp.Property, rp.Tier, rp.Mode, rp.Cfg, ops)
+	})
+	// refresh the violation record from the minimised history
+	for _, v := range execMode(rp.Property, rp.Tier, rp.Mode, rp.Cfg, rp.Ops) {
+		if v.Sig == sig {
+			vv := v
+			rp.Viol = &vv
+			break
+		}
+	}
+	out, _ := json.Marshal(&rp)
+	if err := os.WriteFile(args[0], out, 0o644); err != nil {
+		return 2
+	}
+	return 0
 }
